@@ -1,8 +1,10 @@
 #!/usr/bin/env python3
-"""Apply every seeded mutant to /repo, run the quick checks of the properties it is expected to break (and any extra ones listed),
-undo, and record the outcome in seeded/RESULTS.json + seeded/RESULTS.md.  Sequential: it edits /repo."""
-import json, os, subprocess, sys, glob, time
-PLAN = {   # seed -> properties to run
+"""Apply every seeded change in its own scratch worktree (never /repo itself), run the quick (or SEED_TIER) checks of the
+properties it is expected to break, and record the outcome in seeded/RESULTS.json + seeded/RESULTS.md.
+usage: SEED_JOBS=3 tools/seedmatrix.py [seed-or-property ...]"""
+import json, os, subprocess, sys, glob, time, queue, concurrent.futures
+
+PLAN = {   # seed -> properties whose checks are run against it
  'C01-m1': ['C01'], 'C01-m2': ['C01'], 'C01-m3': ['C01', 'C04'],
  'C03-m1': ['C03', 'C04', 'C12'], 'C03-m2': ['C03'], 'C03-m3': ['C03'],
  'C04-m1': ['C04', 'C05'], 'C04-m2': ['C04', 'C20'], 'C04-m3': ['C04', 'C05'],
@@ -16,45 +18,76 @@ PLAN = {   # seed -> properties to run
  'C17-m1': ['C17'], 'C17-m2': ['C17'], 'C17-m3': ['C17'],
  'C18-m1': ['C18', 'C04'], 'C18-m2': ['C18'], 'C18-m3': ['C18'],
  'C20-m1': ['C20'], 'C20-m2': ['C20'], 'C20-m3': ['C20'],
+ 'C07-n1': ['C07', 'C01'], 'C07-n2': ['C07'], 'C07-n3': ['C07'],
+ 'C20-n1': ['C20'], 'C20-n2': ['C20', 'C04'], 'C20-n3': ['C20', 'C04'],
+ 'C04-n1': ['C04'], 'C04-n2': ['C04'], 'C04-n3': ['C04', 'C20'],
+ 'C17-n1': ['C17'], 'C17-n2': ['C17'], 'C17-n3': ['C17'],
+ 'C05-n1': ['C05'], 'C05-n2': ['C05', 'C06'], 'C05-n3': ['C05'],
 }
-def main():
-    only = sys.argv[1:]
-    tier = os.environ.get('SEED_TIER', 'quick')
-    res_path = '/verif/seeded/RESULTS.json'
-    results = json.load(open(res_path)) if os.path.exists(res_path) else {}
-    seeds = sorted(os.path.basename(d) for d in glob.glob('/verif/seeded/C*-m*') if os.path.isdir(d))
-    for s in seeds:
-        if only and s not in only and s.split('-')[0] not in only:
-            continue
-        props = PLAN.get(s, [s.split('-')[0]])
-        subprocess.run(['git', '-C', '/repo', 'checkout', '--', '.'])
-        a = subprocess.run(['git', '-C', '/repo', 'apply', '/verif/seeded/%s/patch.diff' % s], capture_output=True, text=True)
-        if a.returncode != 0:
-            results[s] = {'applies': False, 'note': a.stderr[-200:]}
-            json.dump(results, open(res_path, 'w'), indent=1); continue
-        r = {'applies': True, 'checks': {}}
-        for p in props:
-            t0 = time.time()
-            c = subprocess.run(['./check', p, '--tier', tier], cwd='/verif', capture_output=True, text=True)
-            laws = sorted({l.split('law=')[1].split()[0] for l in c.stdout.split('\n') if 'law=' in l})
-            r['checks'][p] = {'exit': c.returncode, 'violation_lines': c.stdout.count('\nVIOLATION') + c.stdout.startswith('VIOLATION'), 'laws': laws[:4],
-                              'broken': [l[:160] for l in c.stdout.split('\n') if l.startswith(('BROKEN', 'INCONCLUSIVE'))][:2], 'wall_s': round(time.time() - t0)}
-        subprocess.run(['git', '-C', '/repo', 'checkout', '--', '.'])
-        r['tier'] = tier
-        r['detected_by'] = sorted(p for p, x in r['checks'].items() if x['exit'] == 1)
-        results[s] = r
-        json.dump(results, open(res_path, 'w'), indent=1)
-        print(s, r['detected_by'], {p: x['exit'] for p, x in r['checks'].items()}, flush=True)
-    # markdown
-    lines = ['| seeded change | breaks | what it needs | detected by (quick) | laws |', '|---|---|---|---|---|']
+RES = '/verif/seeded/RESULTS.json'
+HEAD = subprocess.check_output(['git', '-C', '/repo', 'rev-parse', 'HEAD'], text=True).strip()
+
+def work(s, props, tier, slot):
+    wt, cache = '/tmp/seedwt%d' % slot, '/tmp/seedcache%d' % slot
+    if not os.path.exists(wt):
+        subprocess.run(['git', '-C', '/repo', 'worktree', 'add', '--detach', wt, HEAD], capture_output=True)
+    subprocess.run(['git', '-C', wt, 'checkout', '-q', '--', '.'])
+    subprocess.run(['git', '-C', wt, 'checkout', '-q', '--detach', HEAD], capture_output=True)
+    a = subprocess.run(['git', '-C', wt, 'apply', '/verif/seeded/%s/patch.diff' % s], capture_output=True, text=True)
+    if a.returncode != 0:
+        return {'applies': False, 'note': a.stderr[-200:]}
+    env = dict(os.environ, VERIF_REPO=wt, VERIF_CACHE=cache, VERIF_EVIDENCE_DIR=cache + '/evidence', VERIF_WORKERS=os.environ.get('SEED_WORKERS', '6'))
+    r = {'applies': True, 'checks': {}, 'tier': tier}
+    for p in props:
+        t0 = time.time()
+        c = subprocess.run(['./check', p, '--tier', tier], cwd='/verif', capture_output=True, text=True, env=env)
+        out = c.stdout.split('\n')
+        r['checks'][p] = {'exit': c.returncode, 'violation_lines': len([l for l in out if l.startswith('VIOLATION')]),
+                          'laws': sorted({l.split('law=')[1].split()[0] for l in out if 'law=' in l})[:4],
+                          'broken': [l[:160] for l in out if l.startswith(('BROKEN', 'INCONCLUSIVE'))][:2], 'wall_s': round(time.time() - t0)}
+    subprocess.run(['git', '-C', wt, 'checkout', '-q', '--', '.'])
+    r['detected_by'] = sorted(p for p, x in r['checks'].items() if x['exit'] == 1)
+    return r
+
+def write_md(results):
+    lines = ['| seeded change | breaks | what it needs | detected by | laws that fired |', '|---|---|---|---|---|']
     for s in sorted(results):
         meta = json.load(open('/verif/seeded/%s/meta.json' % s))
-        needs = ' '.join(meta.get('summary', '').split())[:140]
+        needs = ' '.join((meta.get('summary') or meta.get('needs', '')).split())[:170].replace('|', '/')
         r = results[s]
         if not r.get('applies'):
             lines.append('| %s | %s | %s | (patch no longer applies) | |' % (s, meta['property'], needs)); continue
-        det = ', '.join(r['detected_by']) or 'not detected'
-        laws = '; '.join(sorted({l for x in r['checks'].values() for l in x['laws']}))[:160]
+        det = ', '.join('%s (%s)' % (p, r['tier']) for p in r['detected_by']) or 'not detected (%s)' % r['tier']
+        laws = '; '.join(sorted({l for x in r['checks'].values() for l in x['laws']}))[:220]
         lines.append('| %s | %s | %s | %s | %s |' % (s, meta['property'], needs, det, laws))
     open('/verif/seeded/RESULTS.md', 'w').write('\n'.join(lines) + '\n')
-main()
+
+def main():
+    only = sys.argv[1:]
+    jobs = int(os.environ.get('SEED_JOBS', '3'))
+    tier = os.environ.get('SEED_TIER', 'quick')
+    results = json.load(open(RES)) if os.path.exists(RES) else {}
+    seeds = sorted(os.path.basename(d) for d in glob.glob('/verif/seeded/C*-[mn]*') if os.path.isdir(d))
+    todo = [s for s in seeds if (not only or s in only or s.split('-')[0] in only)]
+    slots = queue.Queue()
+    for i in range(jobs):
+        slots.put(i)
+    def run(s):
+        slot = slots.get()
+        try:
+            return s, work(s, PLAN.get(s, [s.split('-')[0]]), tier, slot)
+        finally:
+            slots.put(slot)
+    with concurrent.futures.ThreadPoolExecutor(jobs) as ex:
+        for s, r in ex.map(run, todo):
+            if tier != 'quick' and s in results and results[s].get('detected_by'):
+                pass
+            results[s] = r if tier == 'quick' or s not in results else dict(results[s], **{'thorough': r})
+            json.dump(results, open(RES, 'w'), indent=1)
+            print(s, r.get('detected_by'), {p: x['exit'] for p, x in r.get('checks', {}).items()}, flush=True)
+    write_md(results)
+    for i in range(jobs):
+        subprocess.run(['git', '-C', '/repo', 'worktree', 'remove', '--force', '/tmp/seedwt%d' % i], capture_output=True)
+
+if __name__ == '__main__':
+    main()
